@@ -21,7 +21,7 @@
    excludes spellings that are not xsd:boolean, such as "TRUE"); attributes declared by the
    response wrapper's type count as outputs (composite reply object) in the reference too.
      simple_ok   simple-content types extend a built-in that decodes to str: the text of an
-                 element of complex type is never translated [proposed C02:simple-content-value-untyped]
+                 element of complex type is never translated (flags 9) [C02:simple-content-value-untyped]
    The binding styles document/literal wrapped, document/literal bare and rpc/literal are all
    covered by reply_decodes (style_ok); leaves are compared by VALUE through the XSD value maps
    of C06 in the harness predicates ("1" = "true", "+5" = "05", "01.50" = "1.5"). *)
@@ -365,7 +365,7 @@ Proof. repeat split; vm_compute; reflexivity. Qed.
    type is a complex type) *)
 Theorem simple_content_untyped_refuted : exists e x,
   erase [] e = Some x /\ doc_ok [] e = true /\
-  flags_node ex_schema ex_names ex_uris ex_kinds ex_simple_dec (RC ex_P) false x = [] /\
+  flags_node ex_schema ex_names ex_uris ex_kinds ex_simple_dec (RC ex_P) false x = [9] /\
   ref_node ex_schema ex_names ex_uris ex_kinds ex_simple_dec (RC ex_P) false x = Some (PLeaf tag_decimal [49;50;46;53]%N) /\
   decode ex_schema ex_names ex_uris ex_kinds ex_globals false true [] (Some (RC ex_P)) false e
     = DOk (PLeaf tag_str [49;50;46;53]%N).
